@@ -1377,11 +1377,10 @@ impl LpgStore {
             {
                 if let Some(mut nodes) = index.get_mut(&old_hv) {
                     nodes.remove(&node_id);
-                    if nodes.is_empty() {
-                        drop(nodes);
-                        index.remove(&old_hv);
-                    }
                 }
+                // Drop the bucket only if it is still empty at that moment: another thread may
+                // have filed a node under this value since the guard above was released.
+                index.remove_if(&old_hv, |_, nodes| nodes.is_empty());
             }
 
             // Add new value to index
@@ -1415,11 +1414,10 @@ impl LpgStore {
             {
                 if let Some(mut nodes) = index.get_mut(&old_hv) {
                     nodes.remove(&node_id);
-                    if nodes.is_empty() {
-                        drop(nodes);
-                        index.remove(&old_hv);
-                    }
                 }
+                // Drop the bucket only if it is still empty at that moment: another thread may
+                // have filed a node under this value since the guard above was released.
+                index.remove_if(&old_hv, |_, nodes| nodes.is_empty());
             }
         }
     }
